@@ -109,9 +109,9 @@ impl Prop for C01 {
         }
     }
     fn gen(&self, rng: &mut Rng, _tier: Tier, _i: usize, stats: &mut Stats) -> String {
-        let u = universe(rng);
-        let db = gen_db(rng, &u);
-        let nvars = rng.range(2, 4) as u32;
+        let mut u = universe(rng);
+        let db = gen_db(rng, &mut u);
+        let nvars = rng.range(3, 6) as u32;
         let mut fresh = 10;
         let scoped = rng.below(10) < 8;
         stats.hit(if scoped { "scoped_stream" } else { "maybe_bound_stream" });
